@@ -32,7 +32,7 @@ MANIFEST = {
 def labelings(s, rng, quick):
     npos = sum(1 for c in s if c != '+')
     outs = []
-    for alpha in (['a'], ['a', 'b'], ['b', 'a', 'c']):
+    for alpha in (['a'], ['a', 'b'], ['b', 'a', 'c'], ['d2', 'd10'], ['x1', 'x01', 'd9']):
         if len(alpha) ** npos <= (8 if quick else 40):
             for t in itertools.product(alpha, repeat=npos):
                 it = iter(t)
@@ -67,11 +67,19 @@ def run(res, proof):
     for t in structs:
         by_sig.setdefault(tuple(len(x) for x in t.split('+')), []).append(t)
     lines, impl = [], []
-    pre = ['reset', 'mk.dom\t0\ta\t5\t-\t-', 'mk.dom\t0\tb\t5\t-\t-', 'mk.dom\t0\tc\t5\t-\t-']
-    hmap = {'a': 0, 'b': 1, 'c': 2}
+    pre0 = ['reset', 'mk.dom\t0\ta\t5\t-\t-', 'mk.dom\t0\tb\t5\t-\t-', 'mk.dom\t0\tc\t5\t-\t-']
+    hmap0 = {'a': 0, 'b': 1, 'c': 2}
     from dsdobjects.base_classes import ComplexS
     for s in structs:
         for names in labelings(s, rng, quick):
+            # always three domains h0..h2 (the complex is h3): the names in use, padded with unused ones
+            used = sorted(set(names) - {'+'})
+            if set(used) <= set(hmap0):
+                pre, hmap = pre0, hmap0
+            else:
+                three = (used + [x for x in ('a', 'b', 'c') if x not in used])[:3]
+                pre = ['reset'] + ['mk.dom\t0\t%s\t5\t-\t-' % n for n in three]
+                hmap = {n: i for i, n in enumerate(three)}
             rots = ref.rotations(names, s)
             n = len(rots)
             distinct = sorted(set(rots))
@@ -115,13 +123,13 @@ def run(res, proof):
                             res.violation('rotation-not-identified:' + ('named' if nm == 'X' else 'unnamed' if nm == '-' else 'renamed'),
                                           {'history': list(hl)}, o, exp)
                 l = 'names'; hl.append(l); ho.append(iw.do(l))
-                if ho[-1] != 'names a,b,c||||||||X|||||||||||':
+                if ho[-1] != 'names %s||||||||X|||||||||||' % ','.join(sorted(hmap)):
                     res.violation('second-object-created', {'history': list(hl)}, ho[-1], 'exactly one complex registered')
                 l = 'drop\th3'; hl.append(l); ho.append(iw.do(l))
                 del cobj
                 lines += hl; impl += ho
             # inequivalent descriptions over the same strands never compare equal
-            if n >= 2 and len(s) <= 8:
+            if n >= 2 and len(s) <= 8 and hmap is hmap0:
                 iw.do('reset')
                 for l in pre[1:]:
                     iw.do(l)
